@@ -14,7 +14,7 @@ import (
 
 func init() {
 	Registry["C19"] = Set{
-		Explanation: "Decides structural clauses of pool dispatch: W1 ring pairing — in the dispatcher every worker popped from the ring is followed, on every path to the next pop or to the return, by exactly one push of that worker or of its replacement (the documented spawn-failure edge excepted), and no path pushes twice; W2 ownership transfer — the forwarded mailbox message cannot reach ReleaseMailboxMessage in the pool's loop within the same iteration, and Process.Forward pushes the very object it was given and wakes the worker (so sender and reference survive); W3 respawn is taken exactly on ErrProcessUnknown/ErrProcessTerminated, the message is forwarded to the replacement, and the 'dropped' exit is reached only through the loop's exhaustion edge, the loop bound being the ring's length; W4 only messages popped from the Main queue whose type is below Exit are dispatched; W5 every worker is spawned with LinkParent and the configured worker mailbox size. Added while probing: W3 the loop counter runs from 0 in steps of one; W6 once the message was handed to a worker no further Forward is reachable in the same dispatch. W7 Process.Forward refuses a dead worker through the alive predicate (so the dispatcher sees the error and replaces it). W8 pooled objects across calls — when a function may release a pooled mailbox message it received as a parameter (directly, through a callee resolved statically or by the VTA call graph, or deferred), no caller releases or re-dispatches the same object on a path compatible with the callee's releasing path; paths are correlated through the nil-ness of the callee's error result (a double release hands one object to two later users: frames of unrelated connections overwrite each other, a request is presented twice or answered with another request's reference).",
+		Explanation: "Decides structural clauses of pool dispatch: W1 ring pairing — in the dispatcher every worker popped from the ring is followed, on every path to the next pop or to the return, by exactly one push of that worker or of its replacement — also when the replacement cannot be spawned (the dead worker keeps the slot and the next dispatch tries again; F-BY) —, and no path pushes twice; W2 ownership transfer — the forwarded mailbox message cannot reach ReleaseMailboxMessage in the pool's loop within the same iteration, and Process.Forward pushes the very object it was given and wakes the worker (so sender and reference survive); W3 respawn is taken exactly on ErrProcessUnknown/ErrProcessTerminated, the message is forwarded to the replacement, and the 'dropped' exit is reached only through the loop's exhaustion edge, the loop bound being the ring's length; W4 only messages popped from the Main queue whose type is below Exit are dispatched; W5 every worker is spawned with LinkParent and the configured worker mailbox size. Added while probing: W3 the loop counter runs from 0 in steps of one; W6 once the message was handed to a worker no further Forward is reachable in the same dispatch. W7 Process.Forward refuses a dead worker through the alive predicate (so the dispatcher sees the error and replaces it). W8 pooled objects across calls — when a function may release a pooled mailbox message it received as a parameter (directly, through a callee resolved statically or by the VTA call graph, or deferred), no caller releases or re-dispatches the same object on a path compatible with the callee's releasing path; paths are correlated through the nil-ness of the callee's error result (a double release hands one object to two later users: frames of unrelated connections overwrite each other, a request is presented twice or answered with another request's reference).",
 		NotDecided: []string{
 			"liveness of workers and distribution fairness",
 			"loss of messages already queued at a worker that dies afterwards (permitted by the property)",
@@ -66,12 +66,8 @@ func runC19(p *load.Program, r *core.Report) {
 	eachInstr(fwd, func(in ssa.Instruction) {
 		if c, ok := in.(*ssa.Call); ok && callsNamed(in, "Spawn") {
 			spawn = c
-			if errv := tupleExtract(c, 1); errv != nil {
-				_, nn, _ := nilEdges(errv)
-				for _, e := range nn {
-					cut[e] = true
-				}
-			}
+			// the spawn-failure edge is NOT excepted (it was, as "documented", until finding F-BY): a
+			// slot that is dropped when the replacement cannot be started is lost for ever
 		}
 	})
 	for i, pop := range pops {
@@ -97,7 +93,7 @@ func runC19(p *load.Program, r *core.Report) {
 		if len(probs) > 0 {
 			r.Bad(rule, key, fn, p.Pos(pop.Pos()), inst, strings.Join(uniq(probs), "; "))
 		} else {
-			r.OK(rule, key, fn, p.Pos(pop.Pos()), inst, "every path (spawn-failure edge excepted) pushes exactly once")
+			r.OK(rule, key, fn, p.Pos(pop.Pos()), inst, "every path, the spawn-failure edge included, pushes exactly once")
 		}
 	}
 	// what is pushed: the popped value or the freshly spawned pid
